@@ -203,6 +203,26 @@ class Body:
         """True if bb can reach itself."""
         return bb in self.reachable(self.succs(bb))
 
+    def scc_of(self, bb):
+        """Blocks mutually reachable with bb (its loop), or {bb} if bb is not in a loop."""
+        fwd = self.reachable(self.succs(bb))
+        if bb not in fwd:
+            return {bb}
+        out = {bb}
+        for x in fwd:
+            if bb in self.reachable(self.succs(x)):
+                out.add(x)
+        return out
+
+    def loop_exits(self, scc):
+        """Edges (src, dst) leaving the block set."""
+        out = []
+        for x in sorted(scc):
+            for s in self.succs(x):
+                if s not in scc:
+                    out.append((x, s))
+        return out
+
     # ---- defs ----
     def defs(self):
         """local -> list of ('assign'|'call', bb, idx, node, projs)"""
